@@ -10,13 +10,13 @@ open RV.Burn
 
 theorem tol_pos : (0 : Rat) < tol := by unfold tol; norm_num
 
-/-- burns of one agent that do not touch: one ends strictly before the other starts -/
-def Separated (burns : List BurnIv) : Prop :=
-  burns.Pairwise (fun a b => a.2 < b.1 ∨ b.2 < a.1)
+/-- burns of one agent that do not overlap (one may begin at the instant another ends) -/
+def NonOverlapping (burns : List BurnIv) : Prop :=
+  burns.Pairwise (fun a b => a.2 ≤ b.1 ∨ b.2 ≤ a.1)
 
-theorem Separated.of_mem {burns : List BurnIv} (h : Separated burns) {a b : BurnIv} (ha : a ∈ burns) (hb : b ∈ burns)
-    (hne : a ≠ b) : a.2 < b.1 ∨ b.2 < a.1 := by
-  unfold Separated at h
+theorem NonOverlapping.of_mem {burns : List BurnIv} (h : NonOverlapping burns) {a b : BurnIv} (ha : a ∈ burns) (hb : b ∈ burns)
+    (hne : a ≠ b) : a.2 ≤ b.1 ∨ b.2 ≤ a.1 := by
+  unfold NonOverlapping at h
   induction burns with
   | nil => cases ha
   | cons x l ih =>
@@ -27,74 +27,6 @@ theorem Separated.of_mem {burns : List BurnIv} (h : Separated burns) {a b : Burn
     · exact (hx a ha').symm
     · exact ih hl ha' hb'
 
-/-! ### `latest` -/
-
-theorem latest_none_iff (l : List Change) (t : Rat) : latest l t = none ↔ ∀ c ∈ l, t < c.time := by
-  induction l with
-  | nil => simp [latest]
-  | cons c l ih =>
-    rw [latest]
-    cases hl : latest l t with
-    | none =>
-      have := ih.mp hl
-      by_cases hc : c.time ≤ t
-      · simp only [hc, if_true]
-        constructor
-        · intro h; simp at h
-        · intro h; have := h c (by simp); linarith
-      · simp only [hc, if_false, true_iff]
-        intro d hd
-        rcases List.mem_cons.mp hd with rfl | hd
-        · exact not_le.mp hc
-        · exact this d hd
-    | some d =>
-      have hne : ¬ (∀ c ∈ l, t < c.time) := fun h => by rw [ih.mpr h] at hl; cases hl
-      constructor
-      · intro h
-        by_cases hx : c.time ≤ t ∧ d.time < c.time
-        · simp only [hx, and_self, if_true] at h; cases h
-        · simp only [hx, if_false] at h; cases h
-      · intro h; exact absurd (fun c hc => h c (List.mem_cons_of_mem _ hc)) hne
-
-theorem latest_some {l : List Change} {t : Rat} {c : Change} (h : latest l t = some c) :
-    c ∈ l ∧ c.time ≤ t ∧ ∀ d ∈ l, d.time ≤ t → d.time ≤ c.time := by
-  induction l generalizing c with
-  | nil => simp [latest] at h
-  | cons x l ih =>
-    rw [latest] at h
-    cases hl : latest l t with
-    | none =>
-      rw [hl] at h
-      have hall := (latest_none_iff l t).mp hl
-      by_cases hx : x.time ≤ t
-      · simp only [hx, if_true, Option.some.injEq] at h
-        subst h
-        refine ⟨by simp, hx, ?_⟩
-        intro d hd hdt
-        rcases List.mem_cons.mp hd with rfl | hd
-        · exact le_refl _
-        · have := hall d hd; linarith
-      · simp only [hx, if_false] at h; cases h
-    | some e =>
-      rw [hl] at h
-      obtain ⟨he1, he2, he3⟩ := ih hl
-      by_cases hx : x.time ≤ t ∧ e.time < x.time
-      · simp only [hx, and_self, if_true, Option.some.injEq] at h
-        subst h
-        refine ⟨by simp, hx.1, ?_⟩
-        intro d hd hdt
-        rcases List.mem_cons.mp hd with rfl | hd
-        · exact le_refl _
-        · have := he3 d hd hdt; linarith
-      · simp only [hx, if_false, Option.some.injEq] at h
-        subst h
-        refine ⟨List.mem_cons_of_mem _ he1, he2, ?_⟩
-        intro d hd hdt
-        rcases List.mem_cons.mp hd with rfl | hd
-        · by_contra hc
-          exact hx ⟨hdt, not_le.mp hc⟩
-        · exact he3 d hd hdt
-
 /-! ### the roots of one burn -/
 
 theorem armed_iff (b : BurnIv) (t0 : Rat) :
@@ -103,9 +35,9 @@ theorem armed_iff (b : BurnIv) (t0 : Rat) :
   simp only [Bool.and_eq_true, decide_eq_true_eq, Bool.not_eq_true', decide_eq_false_iff_not]
 
 theorem mem_rootsOf {b : BurnIv} {t0 t1 : Rat} {c : Change} (hlen : tol ≤ b.2 - b.1) (h : c ∈ rootsOf b t0 t1) :
-    (armedAfterPrep b t0 = true ∧ b.2 ≤ t1 ∧ c = ⟨b.2, none⟩) ∨
-    (armedAfterPrep b t0 = false ∧ t0 ≤ b.1 ∧ b.1 ≤ t1 ∧ c = ⟨b.1, some b⟩) ∨
-    (armedAfterPrep b t0 = false ∧ t0 ≤ b.1 ∧ b.2 ≤ t1 ∧ c = ⟨b.2, none⟩) := by
+    (armedAfterPrep b t0 = true ∧ b.2 ≤ t1 ∧ c = ⟨b.2, b, false⟩) ∨
+    (armedAfterPrep b t0 = false ∧ t0 ≤ b.1 ∧ b.1 ≤ t1 ∧ c = ⟨b.1, b, true⟩) ∨
+    (armedAfterPrep b t0 = false ∧ t0 ≤ b.1 ∧ b.2 ≤ t1 ∧ c = ⟨b.2, b, false⟩) := by
   unfold rootsOf at h
   by_cases ha : armedAfterPrep b t0 = true
   · simp only [ha, if_true] at h
@@ -127,19 +59,36 @@ theorem mem_rootsOf {b : BurnIv} {t0 t1 : Rat} {c : Change} (hlen : tol ≤ b.2 
         · simp only [he, if_false, List.not_mem_nil] at h
     · simp only [hin, if_false, List.not_mem_nil] at h
 
-/-- every root of a burn lies in the call and in the burn's own interval -/
+/-- every root of a burn lies in the call and in the burn's own interval, and names that burn -/
 theorem rootsOf_time {b : BurnIv} {t0 t1 : Rat} {c : Change} (hlen : tol ≤ b.2 - b.1) (h : c ∈ rootsOf b t0 t1) :
-    t0 ≤ c.time ∧ c.time ≤ t1 ∧ b.1 ≤ c.time ∧ c.time ≤ b.2 ∧ (c.val = none ∨ c.val = some b) := by
+    t0 ≤ c.time ∧ c.time ≤ t1 ∧ b.1 ≤ c.time ∧ c.time ≤ b.2 ∧ c.burn = b := by
   have hp := tol_pos
   rcases mem_rootsOf hlen h with ⟨ha, he, rfl⟩ | ⟨_, h0, h1, rfl⟩ | ⟨_, h0, he, rfl⟩
   · obtain ⟨⟨h1, h2⟩, _⟩ := (armed_iff b t0).mp ha
-    exact ⟨le_of_lt h2, he, by linarith, le_refl _, Or.inl rfl⟩
-  · exact ⟨h0, h1, le_refl _, by linarith, Or.inr rfl⟩
-  · exact ⟨by linarith, he, by linarith, le_refl _, Or.inl rfl⟩
+    exact ⟨le_of_lt h2, he, by linarith, le_refl _, rfl⟩
+  · exact ⟨h0, h1, le_refl _, by linarith, rfl⟩
+  · exact ⟨by linarith, he, by linarith, le_refl _, rfl⟩
+
+/-- the start callback of a burn that is not under way and starts inside the call -/
+theorem on_mem_rootsOf {b : BurnIv} {t0 t1 : Rat} (hlen : tol ≤ b.2 - b.1) (hun : armedAfterPrep b t0 = false)
+    (h0 : t0 ≤ b.1) (h1 : b.1 ≤ t1) : (⟨b.1, b, true⟩ : Change) ∈ rootsOf b t0 t1 := by
+  unfold rootsOf
+  have hnt : ¬ (b.2 - b.1 < tol) := not_lt.mpr hlen
+  simp [hun, h0, h1, hnt]
+
+/-- the end callback of a burn whose end lies in the call -/
+theorem off_mem_rootsOf {b : BurnIv} {t0 t1 : Rat} (hlen : tol ≤ b.2 - b.1)
+    (h : armedAfterPrep b t0 = true ∨ (t0 ≤ b.1 ∧ b.1 ≤ t1)) (he : b.2 ≤ t1) : (⟨b.2, b, false⟩ : Change) ∈ rootsOf b t0 t1 := by
+  unfold rootsOf
+  have hnt : ¬ (b.2 - b.1 < tol) := not_lt.mpr hlen
+  by_cases ha : armedAfterPrep b t0 = true
+  · simp [ha, he]
+  · have ha' : armedAfterPrep b t0 = false := by simpa using ha
+    rcases h with h | h
+    · exact absurd h ha
+    · simp [ha', h.1, h.2, hnt, he]
 
 /-! ### `_prepEvents` -/
-
-private def under (t0 : Rat) (b : BurnIv) : Prop := b.1 < t0 ∧ t0 < b.2
 
 private theorem prep_none_under (l : List BurnIv) (t0 : Rat) (init : Option BurnIv)
     (h : ∀ a ∈ l, ¬ (a.1 < t0 ∧ t0 < a.2)) :
@@ -181,8 +130,8 @@ private theorem prep_one_under (l : List BurnIv) (t0 : Rat) (init : Option BurnI
         · exact h
       exact ih _ hal (fun a' ha' => huniq a' (List.mem_cons_of_mem _ ha'))
 
-/-- with separated burns the slot left by `_prepEvents` is the one burn under way, if any -/
-theorem prepSlot_eq_some_iff {burns : List BurnIv} (hsep : Separated burns) (t0 : Rat) (b : BurnIv) :
+/-- with non-overlapping burns the slot left by `_prepEvents` is the one burn under way, if any -/
+theorem prepSlot_eq_some_iff {burns : List BurnIv} (hsep : NonOverlapping burns) (t0 : Rat) (b : BurnIv) :
     prepSlot burns t0 = some b ↔ b ∈ burns ∧ armedAfterPrep b t0 = true := by
   have huniq : ∀ a ∈ burns, (a.1 < t0 ∧ t0 < a.2) → ∀ a' ∈ burns, (a'.1 < t0 ∧ t0 < a'.2) → a' = a := by
     intro a ha hau a' ha' hau'
@@ -210,5 +159,142 @@ theorem prepSlot_eq_some_iff {burns : List BurnIv} (hsep : Separated burns) (t0 
     · intro h; cases h
     · rintro ⟨hb, hb2⟩
       exact absurd ((armed_iff b t0).mp hb2).1 (hnone b hb)
+
+/-! ### folding callbacks into the slot -/
+
+/-- after a run of end callbacks the slot is what it was, unless its own burn ended -/
+theorem fold_offs_none (post : List Change) (hoff : ∀ c ∈ post, c.on = false) :
+    post.foldl (applyChange .ownOnly) none = none := by
+  induction post with
+  | nil => rfl
+  | cons x l ih =>
+    rw [List.foldl_cons]
+    have hx := hoff x (by simp)
+    have : applyChange .ownOnly none x = none := by
+      unfold applyChange; simp [hx]
+    rw [this]
+    exact ih (fun c hc => hoff c (List.mem_cons_of_mem _ hc))
+
+theorem fold_offs_keep (post : List Change) (hoff : ∀ c ∈ post, c.on = false) (b : BurnIv)
+    (hb : ∀ c ∈ post, c.burn ≠ b) : post.foldl (applyChange .ownOnly) (some b) = some b := by
+  induction post with
+  | nil => rfl
+  | cons x l ih =>
+    rw [List.foldl_cons]
+    have hx := hoff x (by simp)
+    have hxb := hb x (by simp)
+    have : applyChange .ownOnly (some b) x = some b := by
+      unfold applyChange
+      simp only [hx, Bool.false_eq_true, if_false, Option.some.injEq]
+      rw [if_neg (fun h => hxb h.symm)]
+    rw [this]
+    exact ih (fun c hc => hoff c (List.mem_cons_of_mem _ hc)) (fun c hc => hb c (List.mem_cons_of_mem _ hc))
+
+theorem fold_offs_ended (post : List Change) (hoff : ∀ c ∈ post, c.on = false) (b : BurnIv)
+    (hb : ∃ c ∈ post, c.burn = b) : post.foldl (applyChange .ownOnly) (some b) = none := by
+  induction post with
+  | nil => obtain ⟨c, hc, _⟩ := hb; cases hc
+  | cons x l ih =>
+    rw [List.foldl_cons]
+    have hx := hoff x (by simp)
+    by_cases hxb : x.burn = b
+    · have : applyChange .ownOnly (some b) x = none := by
+        unfold applyChange; simp [hx, hxb]
+      rw [this]
+      exact fold_offs_none l (fun c hc => hoff c (List.mem_cons_of_mem _ hc))
+    · have : applyChange .ownOnly (some b) x = some b := by
+        unfold applyChange
+        simp only [hx, Bool.false_eq_true, if_false, Option.some.injEq]
+        rw [if_neg (fun h => hxb h.symm)]
+      rw [this]
+      obtain ⟨c, hc, hcb⟩ := hb
+      rcases List.mem_cons.mp hc with rfl | hc'
+      · exact absurd hcb hxb
+      · exact ih (fun c hc => hoff c (List.mem_cons_of_mem _ hc)) ⟨c, hc', hcb⟩
+
+/-- the slot after a start callback -/
+theorem fold_through_on (pre post : List Change) (x : Change) (hx : x.on = true) (init : Option BurnIv) :
+    (pre ++ x :: post).foldl (applyChange .ownOnly) init = post.foldl (applyChange .ownOnly) (some x.burn) := by
+  rw [List.foldl_append, List.foldl_cons]
+  congr 1
+  unfold applyChange; simp [hx]
+
+/-- a list that contains a start callback splits at its last one -/
+theorem exists_last_on (l : List Change) (h : ∃ c ∈ l, c.on = true) :
+    ∃ pre x post, l = pre ++ x :: post ∧ x.on = true ∧ ∀ c ∈ post, c.on = false := by
+  induction l with
+  | nil => obtain ⟨c, hc, _⟩ := h; cases hc
+  | cons y l ih =>
+    by_cases hl : ∃ c ∈ l, c.on = true
+    · obtain ⟨pre, x, post, rfl, hx, hpost⟩ := ih hl
+      exact ⟨y :: pre, x, post, rfl, hx, hpost⟩
+    · have hy : y.on = true := by
+        obtain ⟨c, hc, hon⟩ := h
+        rcases List.mem_cons.mp hc with rfl | hc'
+        · exact hon
+        · exact absurd ⟨c, hc', hon⟩ hl
+      refine ⟨[], y, l, rfl, hy, ?_⟩
+      intro c hc
+      by_contra hcon
+      exact hl ⟨c, hc, by simpa using hcon⟩
+
+/-! ### the sorted callbacks -/
+
+theorem mem_insertChange {c x : Change} {l : List Change} : x ∈ insertChange c l ↔ x = c ∨ x ∈ l := by
+  induction l with
+  | nil => simp [insertChange]
+  | cons d l ih =>
+    unfold insertChange
+    by_cases h : c.time ≤ d.time
+    · simp only [h, if_true, List.mem_cons]
+    · simp only [h, if_false, List.mem_cons, ih]
+      constructor
+      · rintro (h1 | h1 | h1)
+        · exact Or.inr (Or.inl h1)
+        · exact Or.inl h1
+        · exact Or.inr (Or.inr h1)
+      · rintro (h1 | h1 | h1)
+        · exact Or.inr (Or.inl h1)
+        · exact Or.inl h1
+        · exact Or.inr (Or.inr h1)
+
+theorem mem_sortChanges {x : Change} {l : List Change} : x ∈ sortChanges l ↔ x ∈ l := by
+  induction l with
+  | nil => simp [sortChanges]
+  | cons c l ih => simp only [sortChanges, mem_insertChange, ih, List.mem_cons]
+
+theorem insertChange_sorted (c : Change) (l : List Change) (h : l.Pairwise (fun a b => a.time ≤ b.time)) :
+    (insertChange c l).Pairwise (fun a b => a.time ≤ b.time) := by
+  induction l with
+  | nil => simp [insertChange]
+  | cons d l ih =>
+    obtain ⟨hd, hl⟩ := List.pairwise_cons.mp h
+    unfold insertChange
+    by_cases hc : c.time ≤ d.time
+    · simp only [hc, if_true]
+      refine List.pairwise_cons.mpr ⟨?_, h⟩
+      intro y hy
+      rcases List.mem_cons.mp hy with rfl | hy'
+      · exact hc
+      · exact le_trans hc (hd y hy')
+    · simp only [hc, if_false]
+      refine List.pairwise_cons.mpr ⟨?_, ih hl⟩
+      intro y hy
+      rcases mem_insertChange.mp hy with rfl | hy'
+      · exact le_of_lt (not_le.mp hc)
+      · exact hd y hy'
+
+theorem sortChanges_sorted (l : List Change) : (sortChanges l).Pairwise (fun a b => a.time ≤ b.time) := by
+  induction l with
+  | nil => simp [sortChanges]
+  | cons c l ih => exact insertChange_sorted c _ ih
+
+theorem mem_sortedRoots {burns : List BurnIv} {t0 t1 : Rat} {c : Change} :
+    c ∈ sortedRoots burns t0 t1 ↔ ∃ b ∈ burns, c ∈ rootsOf b t0 t1 := by
+  unfold sortedRoots allRoots
+  rw [mem_sortChanges, List.mem_flatMap]
+
+theorem sortedRoots_sorted (burns : List BurnIv) (t0 t1 : Rat) :
+    (sortedRoots burns t0 t1).Pairwise (fun a b => a.time ≤ b.time) := sortChanges_sorted _
 
 end RV.Proofs.Burns
